@@ -92,7 +92,7 @@ def correspondence(ctx, model_ok=True):
     corpus = progs.corpus_dir("C04")
     limits = limit_programs()
     if not ctx.thorough:
-        limits = [p for p in limits if ":constants:" not in p[0] and (p[0].split(":")[1] not in ("jump", "loop", "try") or p[0].split(":")[2].startswith("936"))]
+        limits = [p for p in limits if ":constants:" not in p[0]]
     allp = corpus + limits + [(n, s, m) for n, s, m, _ in gen] + scripts
     res, _ = progs.run_programs(ctx.runner, allp, {"bytecode": 1, "itrace": 200000, "gc": "default"}, steps_budget=5000000, tag="v")
     requests = []
